@@ -1,6 +1,8 @@
 """Sidecar contracts for the mmCIF leg of rnapolis/parser.py (C08): try_parse_int and the per-row decode of the atom_site
-category in parse_cif (a PREFIX contract: symbolic execution stops in front of `if mod_residue:`, i.e. after the atom_site
-loop; see parse_cif_decode_c for what that leaves open).
+category in parse_cif - as a PREFIX contract (parse_cif@decode: symbolic execution stops in front of `if mod_residue:`, i.e.
+after the atom_site loop; it proves that this part raises nothing under the precondition) and for the WHOLE function
+(parse_cif@whole: the three loops behind are executed too, the decoded atoms reach filter_clashing_atoms untouched and the
+returned atoms satisfy that function's verified contract; see parse_cif_whole_c for what it leaves open).
 
 The mmCIF document.  The contract is stated relative to GHOST PARAMETERS naming what the mmcif reader returns for the file:
   NB     number of data blocks            HAS    the first block has a category `atom_site`
@@ -276,17 +278,96 @@ class io_seek_c:
     modifies = []
 
 
+# ---- the callee filter_clashing_atoms: its contract is VERIFIED under contracts/parser_c.py (targets filter_clashing_atoms and
+# filter_clashing_atoms@single of C08); here it is used at the call site.  The clauses are that contract's own list; the
+# vocabulary they are written in is copied from parser_c.py and checked at import to be the same text
+from contracts import parser_c as _PC  # noqa: E402
+
+UFUNS = {"within": _PC.UFUNS["within"]}
+
+
+@spec
+def close_atoms(a, b, r):
+    """the atoms a, b are at distance <= r"""
+    return within(a.x, a.y, a.z, b.x, b.y, b.z, r)
+
+
+@spec
+def akey(a):
+    """the duplicate key of filter_clashing_atoms: (label, auth, name)"""
+    return (a.label, a.auth, a.name)
+
+
+@spec
+def occ0(a):
+    """`occupancy or 0.0`"""
+    return ite(a.occupancy is None, 0.0, some(a.occupancy))
+
+
+@spec
+def same_slot(a, b):
+    """same (model, label, auth, name): the two atoms are copies of one atom"""
+    return akey(a) == akey(b) and a.model == b.model
+
+
+@spec
+def G_from_input(R, atoms):
+    return forall(lambda r: implies(0 <= r and r < len(R), exists(lambda t: 0 <= t and t < len(atoms) and R[r] == atoms[t])))
+
+
+@spec
+def G_one_per_slot(R):
+    return forall(lambda r, r2: implies(0 <= r and r < r2 and r2 < len(R), not same_slot(R[r], R[r2])))
+
+
+@spec
+def G_highest(R, atoms):
+    return forall(lambda r, t: implies(0 <= r and r < len(R) and 0 <= t and t < len(atoms) and same_slot(atoms[t], R[r]), occ0(atoms[t]) <= occ0(R[r])))
+
+
+@spec
+def G_no_clash(R, d):
+    return forall(lambda r, r2: implies(0 <= r and r < r2 and r2 < len(R) and R[r].model == R[r2].model
+                                        and R[r].occupancy is not None and R[r2].occupancy is not None,
+                                        not close_atoms(R[r], R[r2], d) or not close_atoms(R[r2], R[r], d)))
+
+
+def _same_vocabulary():
+    import inspect
+    return all(inspect.getsource(getattr(_PC, n)) == inspect.getsource(globals()[n])
+               for n in ("close_atoms", "akey", "occ0", "same_slot", "G_from_input", "G_one_per_slot", "G_highest", "G_no_clash"))
+
+
+assert _same_vocabulary(), "the filter_clashing_atoms vocabulary must be the text of contracts/parser_c.py"
+assert CLASSES["Atom"] == _PC.CLASSES["Atom"] and CLASSES["ResidueLabel"] == _PC.CLASSES["ResidueLabel"] \
+    and CLASSES["ResidueAuth"] == _PC.CLASSES["ResidueAuth"]
+
+
 class filter_clashing_atoms_c:
-    """callee view on the one path that does not stop (a file without any data block): result shape and the exceptional exit
-    only - ValueError exactly for an empty atom list, as contracts/parser_c.py states it (filter_clashing_atoms@single, where
-    the function is verified)"""
+    """callee view: the clauses and the exceptional exit of the contract verified under contracts/parser_c.py (ensures of
+    filter_clashing_atoms; ValueError exactly for an empty atom list: filter_clashing_atoms@single)"""
     params = {"atoms": "list[rec[Atom]]", "clash_distance": "real"}
     defaults = {"clash_distance": 0.5}
-    requires = []
+    requires = list(_PC.filter_clashing_atoms_c.requires)
     returns = "list[rec[Atom]]"
-    ensures = []
+    ensures = list(_PC.filter_clashing_atoms_c.ensures)
     raises = {"ValueError": "len(atoms) == 0"}
     modifies = []
+
+
+assert filter_clashing_atoms_c.requires == [] and filter_clashing_atoms_c.params == _PC.filter_clashing_atoms_c.params \
+    and filter_clashing_atoms_c.raises == _PC.filter_clashing_atoms_c.raises
+
+
+def _ext_replace(e, args, kw, node, st):
+    """str.replace(old, new): a deterministic function of its three arguments (uninterpreted py_replace); nothing else assumed.
+    Only the entity_poly loop uses it (sequence_by_entity), about which no clause is stated"""
+    if len(args) != 3 or kw:
+        raise Unsupported("str.replace(old, new) only")
+    return e.ufun("py_replace", _z3.StringSort(), _z3.StringSort(), _z3.StringSort(), _z3.StringSort())(*[to_z3(a) for a in args])
+
+
+EXTERNALS["str.replace"] = _ext_replace
 
 
 class parse_cif_decode_c:
@@ -339,9 +420,49 @@ class parse_cif_decode_c:
     ]
 
 
+def _over_D(text):
+    return text.replace(_ATOMS, "D")
+
+
+class parse_cif_whole_c(parse_cif_decode_c):
+    """The WHOLE function (no stop_before).  D (ghost result) = atoms_to_process when the call of filter_clashing_atoms is
+    reached; the decode clauses of parse_cif@decode are stated for D as postconditions, and the returned atoms result[0] satisfy
+    filter_clashing_atoms' contract with respect to D.  The three loops behind the atom_site loop (pdbx_struct_mod_residue,
+    entity_poly, entity) are executed symbolically: none of them assigns or mutates atoms_to_process (the engine's loop
+    analysis havocs only what a loop body writes), `modified` is a dict keyed by records of two classes
+    (rec[ResidueLabel,ResidueAuth]).  Nothing is stated about the three other components of the result.
+    Exceptions: ValueError exactly when no atom is decoded (no data block, no atom_site category or no row:
+    filter_clashing_atoms([]) raises it, see contracts/parser_c.py); TypeError is ALLOWED without a stated
+    condition - try_parse_int(None) in the pdbx_struct_mod_residue loop raises it when that category lacks label_seq_id or
+    auth_seq_id (the ghost document does not describe that category); that the atom_site part raises no TypeError under the
+    precondition is what parse_cif@decode proves."""
+    stop_before = None
+    stop_ensures = []
+    stop_ensures_labels = {}
+    # ValueError: filter_clashing_atoms([]) - exactly when no atom was decoded (no data block, no atom_site category, no row)
+    raises = {"ValueError": "not (NB > 0 and HAS and len(ROWS) > 0)", "TypeError": "?"}
+    raises_exact = ["ValueError"]
+    returns = "tuple[list[rec[Atom]],dict[rec[ResidueLabel,ResidueAuth],str],dict[str,str],dict[str,bool]]"
+    ghost_returns = {"D": "list[rec[Atom]]"}
+    ensures = ([_over_D(c) for c in parse_cif_decode_c.stop_ensures]
+               + ["G_from_input(result[0], D) and G_one_per_slot(result[0])", "G_highest(result[0], D)", "G_no_clash(result[0], 0.5)"])
+    ensures_labels = dict(parse_cif_decode_c.stop_ensures_labels)
+    ensures_labels.update({len(parse_cif_decode_c.stop_ensures): "returned-atoms-are-decoded-atoms-one-per-model-residue-and-name",
+                           len(parse_cif_decode_c.stop_ensures) + 1: "the-highest-occupancy-copy-is-returned",
+                           len(parse_cif_decode_c.stop_ensures) + 2: "of-two-returned-atoms-of-a-model-within-0.5-A-only-one"})
+    locals = {"atoms_to_process": "list[rec[Atom]]", "modified": "dict[rec[ResidueLabel,ResidueAuth],str]",
+              "sequence_by_entity": "dict[str,str]", "is_nucleic_acid_by_entity": "dict[str,bool]"}
+    loops = dict(parse_cif_decode_c.loops)
+    loops.update({1: {"inv": []}, 2: {"inv": []}, 3: {"inv": []}})
+    ghost_entry = ["let D = empty('list[rec[Atom]]')"]
+    ghost = parse_cif_decode_c.ghost + [
+        {"when": "before", "at": "atoms = filter_clashing_atoms(", "label": "decoded", "do": ["let D = atoms_to_process"]}]
+
+
 CONTRACTS = {
     "try_parse_int": try_parse_int_c,
     "parse_cif@decode": parse_cif_decode_c,
+    "parse_cif@whole": parse_cif_whole_c,
     "IO.seek": io_seek_c,
     "filter_clashing_atoms": filter_clashing_atoms_c,
 }
